@@ -2,8 +2,10 @@ import Pcore.Proofs.Parse
 import Pcore.Proofs.Resolve
 import Pcore.Proofs.LexLoops
 import Pcore.Proofs.CoreNames
+import Pcore.Proofs.ArgCounts
 import Pcore.Generated.LexLoops
 import Pcore.Generated.CoreTypes
+import Pcore.Generated.ArgCounts
 /-!
 # C06 — The parser is total: it terminates and fails only with located parse errors
 
@@ -295,6 +297,24 @@ example : coreTableOK (Pcore.Generated.coreTypes ++ [("Newtype", "DefaultNewtype
 example : coreTableOK (Pcore.Generated.coreTypes.map fun r => if r.1 = "Uri" then ("Uri", "DefaultStringType") else r) = false := by
   decide +kernel
 example : coreTableOK (Pcore.Generated.coreTypes.filter fun r => r.1 != "Typeset") = false := by decide +kernel
+
+/-- second tie, arity: for every modelled kind whose creator can refuse an argument count, the count the creator DECLARES
+    (the literal of its `illegalArgumentCount(label, counts, n)` call, regenerated from types/*.go) is the model's maximum
+    (`modelMax`; Hash: the message says `0, 2, or 3`, the code and the model take four) -/
+theorem C06_arg_counts : argCountsOK Pcore.Generated.argCounts = true := by decide +kernel
+
+/-- above that maximum every creator of the model refuses — by count, or (Integer, Float: the first argument is looked at
+    first) by the kind of the first argument; one statement for all kinds -/
+theorem C06_over_max_refused (env : Env) (k : TKind) (n : Nat) (args : List Arg) (hk : modelMax k = some n)
+    (hl : n < args.length) :
+    createKR env k args = .reported .argCount ∨ createKR env k args = .reported .argType :=
+  over_max_refused env k n args hk hl
+
+example : modelMax .array = some 3 ∧ (3 : Nat) < [Arg.int 1, .int 2, .int 3, .int 4].length := by decide
+/-- a table in which a creator declares another count is rejected -/
+example : argCountsOK (Pcore.Generated.argCounts.map fun r => if r.2.1 = "Integer[]" then (r.1, r.2.1, "0 - 3") else r) = false := by
+  decide +kernel
+example : argCountsOK (Pcore.Generated.argCounts.filter fun r => r.2.1 != "Runtime[]") = false := by decide +kernel
 
 /-! #### non-vacuity of the resolution theorems -/
 
